@@ -14,6 +14,8 @@
  *   DISTRIB <a|f> <arg>*             hwloc-distrib -i <input> [--if <fmt>] <arg>*
  *   LRT <arg>*                       --largest round trip                            -> same=1 | same=0 … | na
  *   NI <level> <arg>*                -N vs -I                                        -> same=1 | same=0 … | na
+ *   SL <stdin> <opt>*                stdin mode, line by line: `hwloc-calc -q <opt>*` fed <stdin> prints, for every input line,
+ *                                    what `hwloc-calc -q <opt>* <locations of that line>` prints      -> same=1 cmp=<n> | same=0 … | na
  *   LSTOPO <a|f> <xml|synthetic> <flags> <tofile> lib=<ok|fail>                      -> rc=0 same=1 reload=1 | rc=nz
  *   DIFFPATCH <seed> complex=<0|1> pipe=<0|1> rev=<0|1>                              -> diff=0 patch=0 equiv=1 | diff=nz
  *   BADARGS <tool> <arg>*            a malformed command line                        -> rc=nz
@@ -279,6 +281,57 @@ static void op_ni(int nt, char **t) {
   for (int i = 0; i < n; i++) free(av[i]);
 }
 
+/* stdin mode is line-by-line: every input line is computed from a fresh state, i.e. output line k = the output of the same options
+ * with the locations of line k on the command line.  Lines without a token, lines whose command-line run fails or prints nothing
+ * (every location ignored: that run falls back to reading its empty stdin) are not compared.  Also covers the output modes the
+ * Lean model does not predict (memorytier, cpukind, --default-nodes, --local-memory). */
+static void op_sl(int nt, char **t) {
+  if (nt < 2) { set_ans("bad-op"); return; }
+  size_t inlen; char *in = unesc(t[1], &inlen);
+  char *av[MAXARG]; int n = 0;
+  for (int i = 2; i < nt && n < MAXARG - 40; i++) av[n++] = unesc(t[i], NULL);
+  const char *pre[] = {"-q"};
+  char **lines = NULL; unsigned nl = 0; char **outs = NULL; unsigned no = 0; char *incopy = NULL;
+  struct result r0 = {0, 0, 0, NULL, 0};
+  if (memchr(in, 0, inlen)) { set_ans("na"); goto done; }
+  /* the input lines (a final newline does not start another line) */
+  incopy = strdup(in);
+  lines = calloc(inlen + 2, sizeof(*lines));
+  for (char *p = incopy; ; ) { lines[nl++] = p; char *e = strchr(p, '\n'); if (!e) break; *e = 0; p = e + 1; }
+  if (nl && !*lines[nl - 1]) nl--;
+  for (unsigned k = 0; k < nl; k++) {         /* a token starting with '-' would be an option on the command line */
+    const char *p = lines[k];
+    while (*p) { while (*p == ' ') p++; if (*p == '-') { set_ans("na"); goto done; } while (*p && *p != ' ') p++; }
+  }
+  r0 = calc_run(0, in, inlen, n, av, 1, pre);
+  if (res_bad(&r0)) { char *l = result_line(&r0); set_ans(l); free(l); goto done; }
+  if (r0.rc || memchr(r0.out, 0, r0.outlen) || (r0.outlen && r0.out[r0.outlen - 1] != '\n')) { set_ans("na"); goto done; }
+  outs = calloc(r0.outlen + 2, sizeof(*outs));
+  for (char *p = r0.out; *p; ) { outs[no++] = p; char *e = strchr(p, '\n'); *e = 0; p = e + 1; }
+  if (no != nl) { set_ans("na"); goto done; }
+  unsigned cmp = 0;
+  for (unsigned k = 0; k < nl; k++) {
+    char *copy = strdup(lines[k]); int m = n;
+    for (char *p = strtok(copy, " "); p && m < MAXARG - 1; p = strtok(NULL, " ")) av[m++] = p;
+    if (m == n) { free(copy); continue; }
+    struct result rk = calc_run(0, NULL, 0, m, av, 1, pre);
+    free(copy);
+    if (res_bad(&rk)) { char *l = result_line(&rk); set_ans(l); free(l); free(rk.out); goto done; }
+    if (rk.rc || !rk.outlen) { free(rk.out); continue; }
+    size_t ol = strlen(outs[k]);
+    if (rk.outlen != ol + 1 || memcmp(rk.out, outs[k], ol) || rk.out[ol] != '\n') {
+      char *e1 = esc(outs[k], ol), *e2 = esc(rk.out, rk.outlen);
+      snprintf(ansbuf, sizeof ansbuf, "same=0 line=%u stdin-mode=%.2000s command-line=%.2000s", k, e1, e2);
+      free(e1); free(e2); free(rk.out); goto done;
+    }
+    free(rk.out); cmp++;
+  }
+  snprintf(ansbuf, sizeof ansbuf, "same=1 cmp=%u", cmp);
+done:
+  free(r0.out); free(lines); free(outs); free(incopy); free(in);
+  for (int i = 0; i < n; i++) free(av[i]);
+}
+
 /* library-side reference for lstopo: export of the in-process topology (loaded exactly as lstopo loads it) */
 static char *lib_export(const char *of, unsigned long flags, size_t *lenp) {
   if (!strcmp(of, "xml")) {
@@ -495,6 +548,7 @@ static void do_op_line(const char *line) {
   else if (!strcmp(t[0], "DISTRIB")) op_distrib(nt, t);
   else if (!strcmp(t[0], "LRT")) op_lrt(nt, t);
   else if (!strcmp(t[0], "NI")) op_ni(nt, t);
+  else if (!strcmp(t[0], "SL")) op_sl(nt, t);
   else if (!strcmp(t[0], "LSTOPO")) op_lstopo(nt, t);
   else if (!strcmp(t[0], "DIFFPATCH")) op_diffpatch(nt, t);
   else if (!strcmp(t[0], "BADARGS")) op_badargs(nt, t);
@@ -729,6 +783,116 @@ static void gen_calc(void) {
   int off = app(line, 0, sizeof line, "CALC %c %s", rng_chance(25) ? 'f' : 'a', ein); free(ein);
   emit_args(line, off, sizeof line, &a); a_free(&a);
 }
+/* --- stdin mode: no location on the command line, the locations come line by line on standard input --- */
+/* a valid location naming one object (or a short range) of the NUMA / package / core / PU level: successive lines then select
+ * different NUMA nodes and different CPUs, which is what distinguishes a per-line computation from an accumulating one */
+static void gen_simple_loc(char *out, size_t cap, int nodeset_input) {
+  static const hwloc_obj_type_t ty[] = {HWLOC_OBJ_NUMANODE, HWLOC_OBJ_NUMANODE, HWLOC_OBJ_PACKAGE, HWLOC_OBJ_CORE, HWLOC_OBJ_PU, HWLOC_OBJ_GROUP, HWLOC_OBJ_L3CACHE};
+  static const char *nm[] = {"numa", "node", "pack", "core", "pu", "group", "l3"};
+  unsigned k = rng_below(7); int n = hwloc_get_nbobjs_by_type(topo, ty[k]);
+  if (n <= 0) { k = 4; n = hwloc_get_nbobjs_by_type(topo, HWLOC_OBJ_PU); if (n <= 0) n = 1; }
+  unsigned i = rng_below((unsigned) n);
+  static const char *pre[] = {"", "", "", "", "", "~", "x", "^"};
+  const char *pr = pre[rng_below(8)];
+  if (rng_chance(12)) {        /* a raw set: the cpuset of the object, or (with --ni) its nodeset */
+    hwloc_obj_t o = hwloc_get_obj_by_type(topo, ty[k], i); char b[512] = "0x0";
+    hwloc_const_bitmap_t set = o ? (nodeset_input ? o->nodeset : o->cpuset) : NULL;
+    if (set && hwloc_bitmap_weight(set) >= 0 && hwloc_bitmap_last(set) < 200) hwloc_bitmap_snprintf(b, sizeof b, set);
+    snprintf(out, cap, "%s%s", pr, b);
+  }
+  else if (rng_chance(75)) snprintf(out, cap, "%s%s:%u", pr, nm[k], i);
+  else if (rng_chance(50)) snprintf(out, cap, "%s%s:%u-%u", pr, nm[k], i, i + rng_below(2));
+  else snprintf(out, cap, "%s%s:%u:%u", pr, nm[k], i, 1 + rng_below(2));
+}
+static void gen_mem_level(char *out, size_t cap) {
+  static const char *n[] = {"numa", "numa", "numa", "node", "NUMANode", "numanode", "numa[tier=0]", "numa[tier=1]", "numa[dram]", "numa[hbm]", "numa[subtype=MCDRAM]",
+    "memorytier", "MemoryTier", "memcache", "-3"};
+  snprintf(out, cap, "%s", n[rng_below(sizeof n / sizeof *n)]);
+}
+/* the options of a stdin-mode run (no location): one output mode and a random subset of the input/output modifiers, shuffled */
+static void gen_stdin_opts(struct args *a, int allow_verbose, int *nodeset_input, char *bucket, size_t bcap) {
+  static const char *fmts[] = {"hwloc", "list", "taskset", "systemd-dbus-api"};
+  static const char *seps[] = {" ", ",", ";", "--", "", "\t", ":"};
+  char buf[512]; struct args g[16]; int ng = 0; memset(g, 0, sizeof g);
+  unsigned k = rng_below(100); int mem = 0; const char *mode = "set";
+  if (k < 55) {              /* -I / -N: half of the time on a memory level (the only outputs that read the nodeset without -n) */
+    int isN = rng_chance(45); mem = rng_chance(50);
+    a_add(&g[ng], isN ? (rng_chance(50) ? "-N" : "--number-of") : (rng_chance(50) ? "-I" : "--intersect"));
+    if (mem) gen_mem_level(buf, sizeof buf); else gen_out_level(buf, sizeof buf);
+    a_add(&g[ng++], buf); mode = isN ? (mem ? "-N-mem" : "-N-cpu") : (mem ? "-I-mem" : "-I-cpu");
+  } else if (k < 65) {
+    char t1[64], t2[64], t3[64]; gen_type(t1, sizeof t1, rng_chance(85)); gen_type(t2, sizeof t2, rng_chance(85)); gen_type(t3, sizeof t3, 1);
+    if (rng_chance(25)) snprintf(t1, sizeof t1, "numa");
+    unsigned n = 1 + rng_below(3); snprintf(buf, sizeof buf, "%s%s%s%s%s", t1, n > 1 ? "." : "", n > 1 ? t2 : "", n > 2 ? "." : "", n > 2 ? t3 : "");
+    a_add(&g[ng], rng_chance(50) ? "-H" : "--hierarchical"); a_add(&g[ng++], buf); mode = "-H";
+  } else if (k < 73) { a_add(&g[ng++], "--largest"); mode = "largest"; }
+  else if (k < 77) { a_add(&g[ng++], rng_chance(50) ? "--local-memory" : "--default-nodes"); mode = "set+memopt"; }
+  *nodeset_input = 0;
+  if (rng_chance(35)) {      /* a nodeset input/output flag */
+    unsigned f = rng_below(5);
+    if (f == 0) { a_add(&g[ng++], rng_chance(50) ? "-n" : "--nodeset"); *nodeset_input = 1; }
+    else if (f == 1) { a_add(&g[ng++], rng_chance(50) ? "--ni" : "--nodeset-input"); *nodeset_input = 1; }
+    else if (f == 2) a_add(&g[ng++], rng_chance(50) ? "--no" : "--nodeset-output");
+    else if (f == 3) { a_add(&g[ng], rng_chance(50) ? "--nof" : "--nodeset-output-format"); a_add(&g[ng++], fmts[rng_below(4)]); }
+    else { a_add(&g[ng++], "--ni"); a_add(&g[ng++], "--no"); *nodeset_input = 1; }
+  }
+  if (rng_chance(45)) { static const char *f[] = {"--po", "--po", "--lo", "--pi", "--li", "-p", "-l", "--physical-output", "--logical-input", "--physical"}; a_add(&g[ng++], f[rng_below(10)]); }
+  if (rng_chance(12)) { static const char *f[] = {"--po", "--lo", "--pi", "--li", "-p", "-l"}; a_add(&g[ng++], f[rng_below(6)]); }
+  if (rng_chance(30)) a_add(&g[ng++], rng_chance(50) ? "--oo" : "--object-output");
+  if (rng_chance(20)) { a_add(&g[ng], "--sep"); a_add(&g[ng++], seps[rng_below(7)]); }
+  if (rng_chance(30)) { if (rng_chance(40)) a_add(&g[ng++], "--taskset"); else { a_add(&g[ng], rng_chance(50) ? "--cof" : "--cpuset-output-format"); a_add(&g[ng++], fmts[rng_below(4)]); } }
+  if (rng_chance(12)) a_add(&g[ng++], "--single");
+  if (rng_chance(6)) { static const char *f[] = {"--no-smt", "--no-smt=0", "--no-smt=1"}; a_add(&g[ng++], f[rng_below(3)]); }
+  if (rng_chance(5)) { a_add(&g[ng], "--cif"); a_add(&g[ng++], fmts[rng_below(3)]); }
+  if (rng_chance(5) && strcmp(mode, "set+memopt")) a_add(&g[ng++], "--default-nodes");
+  if (rng_chance(45)) a_add(&g[ng++], rng_chance(50) ? "-q" : "--quiet");
+  if (allow_verbose && rng_chance(3)) a_add(&g[ng++], "-v");
+  if (allow_verbose && rng_chance(3)) { static const char *bad[] = {"--foo", "-x", "--cof", "-N", "--sep", "-", "--", "-I", "-H", "--cif"}; a_add(&g[ng++], bad[rng_below(10)]); }
+  /* shuffle the groups (an option keeps its argument) */
+  for (int i = ng - 1; i > 0; i--) { int j = (int) rng_below((unsigned) i + 1); struct args tmp = g[i]; g[i] = g[j]; g[j] = tmp; }
+  for (int i = 0; i < ng; i++) { for (int j = 0; j < g[i].n; j++) a_add(a, g[i].v[j]); a_free(&g[i]); }
+  snprintf(bucket, bcap, "stdin:out=%s%s", mode, *nodeset_input ? "+ni" : "");
+}
+/* 1..5 lines of 1..3 locations each; also empty lines, lines of blanks, invalid locations, lines longer than the 64-byte buffer the
+ * tool starts with, a missing final newline */
+static void gen_stdin_text(char *in, int cap, int nodeset_input, int for_sl, int cif_list, unsigned *nlines) {
+  static const unsigned nlw[] = {1, 2, 2, 2, 3, 3, 3, 4, 4, 5};
+  unsigned nl = nlw[rng_below(10)]; int off = 0; in[0] = 0;
+  *nlines = nl;
+  int simple_pct = rng_chance(60) ? 75 : 25;
+  for (unsigned l = 0; l < nl; l++) {
+    unsigned k = rng_below(100);
+    if (k < 7) ;                                                                   /* empty line */
+    else if (k < 12) off = app(in, off, cap, "%s", rng_chance(70) ? (rng_chance(50) ? " " : "   ") : "\t");   /* blanks only (a tab is a token) */
+    else {
+      unsigned nt = rng_chance(8) ? 6 + rng_below(8) : 1 + rng_below(3);
+      if (rng_chance(10)) off = app(in, off, cap, " ");
+      for (unsigned t = 0; t < nt; t++) {
+        char loc[2048];
+        do {
+          if (rng_chance(simple_pct)) gen_simple_loc(loc, sizeof loc, nodeset_input); else gen_location(loc, sizeof loc);
+        } while (strlen(loc) >= 300 || !*loc || (for_sl && loc[0] == '-') || strchr(loc, '\n') || (cif_list && strstr(loc, "0x") && strlen(loc) > 7));   /* see slow_args */
+        off = app(in, off, cap, "%s%s", t ? (rng_chance(10) ? "  " : " ") : "", loc);
+      }
+      if (rng_chance(10)) off = app(in, off, cap, " ");
+    }
+    if (l + 1 < nl || rng_chance(85)) off = app(in, off, cap, "\n");
+  }
+}
+static void gen_calc_stdin(int sl) {
+  static char line[1 << 16], in[1 << 14]; struct args a = {0}; int ni; char bucket[64]; unsigned nl;
+  do { a_free(&a); gen_stdin_opts(&a, !sl, &ni, bucket, sizeof bucket); } while (slow_args(&a));
+  int cif_list = 0; for (int i = 1; i < a.n; i++) if (!strcmp(a.v[i], "list") && !strcmp(a.v[i - 1], "--cif")) cif_list = 1;
+  gen_stdin_text(in, sizeof in, ni, sl, cif_list, &nl);
+  stat_hit(bucket);
+  { char b[32]; snprintf(b, sizeof b, "stdin:lines=%u", nl); stat_hit(b); }
+  if (hwloc_get_nbobjs_by_type(topo, HWLOC_OBJ_NUMANODE) >= 2) stat_hit("stdin:numa-nodes>=2");
+  char *ein = esc(in, strlen(in)); int off;
+  if (sl) off = app(line, 0, sizeof line, "SL %s", ein);
+  else off = app(line, 0, sizeof line, "CALC %c %s", rng_chance(20) ? 'f' : 'a', ein);
+  free(ein);
+  emit_args(line, off, sizeof line, &a); a_free(&a);
+}
 static void gen_lrt(void) {
   static char line[1 << 16]; struct args a = {0}; char buf[4096];
   unsigned nloc = 1 + rng_below(3);
@@ -814,7 +978,8 @@ static void generate(unsigned long nops) {
     unsigned burst = 4 + rng_below(12);
     for (unsigned i = 0; i < burst && nops_done < nops; i++) {
       switch (mode) {
-      case 'A': { unsigned j = rng_below(100); if (j < 78) gen_calc(); else if (j < 88) gen_lrt(); else if (j < 96) gen_ni(); else gen_badargs(); break; }
+      case 'A': { unsigned j = rng_below(100); if (j < 58) gen_calc(); else if (j < 74) gen_calc_stdin(0); else if (j < 80) gen_calc_stdin(1);
+                  else if (j < 89) gen_lrt(); else if (j < 96) gen_ni(); else gen_badargs(); break; }
       case 'D': gen_distrib(); break;
       case 'L': if (rng_chance(85)) gen_lstopo(); else gen_badargs(); break;
       case 'P': if (rng_chance(85)) gen_diffpatch(); else gen_badargs(); break;
